@@ -2,13 +2,22 @@
   Executable model of the configuration code of hledger-lsp (property C19).
 
   Go code transcribed (internal/server):
-    settings.go  featureSettings … serverSettings, defaultServerSettings, normalizeServerSettings,
-                 setSettings, getSettings, refreshConfiguration, DidChangeConfiguration,
-                 parseSettingsFromRaw, applySettingsMap, toInt, toInt64, toBool, toString
+    settings.go  featureSettings … serverSettings, defaultServerSettings, maxIndentSize,
+                 maxMinAlignmentColumn, normalizeServerSettings, setSettings, getSettings,
+                 nextRefresh, isNewestRefresh, applyConfiguration, refreshConfiguration,
+                 DidChangeConfiguration, parseSettingsFromRaw, applySettingsMap, toInt, toInt64,
+                 toBool, toString
     server.go    NewServer (initial settings), Initialize (initializationOptions, capability
                  gating, supportsConfiguration), Initialized (spawns a refresh),
                  shouldIncludeDiagnostic, the places where a setting is read
-    include/loader.go  DefaultLimits, normalizeLimits (SetLimits)
+    include/loader.go  DefaultLimits, normalizeLimits, SetLimits (the cache is emptied when the
+                 limits change), the size check of loadSingleInclude on the probe's chain
+
+  The model describes the tree AFTER the `fix:` commits for the findings
+  wrapper-shadows-siblings, unbounded-width-panics, limits-skip-cached-includes,
+  refresh-out-of-order and push-ignored; the pinned behaviour is kept in the definitions
+  marked PINNED (`normalizePinned`, `parseSettingsFromRawPinned`, `SrvP`/`stepP`) for the
+  `pinned_*_counterexample` theorems of HL.Props.C19.
 
   JSON values are modelled *as the Go code sees them*: the payload has already been decoded by
   encoding/json (segmentio) into `interface{}`; every JSON number is a float64.  A float64 is
@@ -311,41 +320,86 @@ def coerceLeaf (l : Leaf) (v : Json) : Option Val :=
   | .toInt64 => (toInt64 v).map .i
   | .toString => (toStr v).map .s
 
-/-- The statements of `normalizeServerSettings`, in source order: field and condition under
-    which the field is reset to its default. -/
+/-- The statements of `normalizeServerSettings`, in source order:
+    `if settings.F <cond> { settings.F = <to> }`. -/
 inductive NormCond where
   | nonPositive     -- `<= 0`
+  | negative        -- `< 0`
   | emptyString     -- `== ""`
+  | above (m : Int) -- `> m`
   deriving DecidableEq, Repr
 
 def NormCond.src : NormCond → String
   | .nonPositive => "<= 0"
+  | .negative => "< 0"
   | .emptyString => "== \"\""
+  | .above m => s!"> {m}"
 
-def normRules : List (Leaf × NormCond) := [
-  (.cMaxResults, .nonPositive), (.oIndentSize, .nonPositive), (.xPath, .emptyString),
-  (.xTimeout, .nonPositive), (.lMaxFileSizeBytes, .nonPositive), (.lMaxIncludeDepth, .nonPositive)]
+/-- what the statement assigns: the field's default, or a constant (the upper bound) -/
+inductive NormTo where
+  | default
+  | const (v : Int)
+  deriving DecidableEq, Repr
+
+structure NormRule where
+  leaf : Leaf
+  cond : NormCond
+  to : NormTo
+  deriving DecidableEq, Repr
+
+/-- `maxIndentSize`, `maxMinAlignmentColumn` (settings.go; compared with the source by `c19.keys`) -/
+def maxIndentSize : Int := 32
+def maxMinAlignmentColumn : Int := 500
+
+def normRules : List NormRule := [
+  ⟨.cMaxResults, .nonPositive, .default⟩,
+  ⟨.oIndentSize, .nonPositive, .default⟩,
+  ⟨.oIndentSize, .above maxIndentSize, .const maxIndentSize⟩,
+  ⟨.oMinAlignmentColumn, .negative, .default⟩,
+  ⟨.oMinAlignmentColumn, .above maxMinAlignmentColumn, .const maxMinAlignmentColumn⟩,
+  ⟨.xPath, .emptyString, .default⟩,
+  ⟨.xTimeout, .nonPositive, .default⟩,
+  ⟨.lMaxFileSizeBytes, .nonPositive, .default⟩,
+  ⟨.lMaxIncludeDepth, .nonPositive, .default⟩]
+
+/-- The normalisation of the pinned tree (before the widths were bounded): the six
+    "non-positive / empty gives the default" statements only. -/
+def normRulesPinned : List NormRule := [
+  ⟨.cMaxResults, .nonPositive, .default⟩, ⟨.oIndentSize, .nonPositive, .default⟩,
+  ⟨.xPath, .emptyString, .default⟩, ⟨.xTimeout, .nonPositive, .default⟩,
+  ⟨.lMaxFileSizeBytes, .nonPositive, .default⟩, ⟨.lMaxIncludeDepth, .nonPositive, .default⟩]
 
 def NormCond.holds : NormCond → Val → Bool
   | .nonPositive, .i v => decide (v ≤ 0)
+  | .negative, .i v => decide (v < 0)
   | .emptyString, .s v => decide (v = "")
+  | .above m, .i v => decide (v > m)
   | _, _ => false
 
+def NormRule.value (r : NormRule) : Val :=
+  match r.to with
+  | .default => get defaults r.leaf
+  | .const v => .i v
+
+/-- one statement applied to the value of its field -/
+def stepVal (v : Val) (r : NormRule) : Val := if r.cond.holds v then r.value else v
+
 /-- what normalisation does to one field (proved equal to `normalize` field by field in
-    `HL.Lemmas.Settings.get_normalize`) -/
+    `HL.Lemmas.Settings.get_normalize`): the statements about that field, in order -/
 def normLeaf (l : Leaf) (v : Val) : Val :=
-  match normRules.lookup l with
-  | some c => if c.holds v then get defaults l else v
-  | none => v
+  (normRules.filter fun r => r.leaf = l).foldl stepVal v
 
 /-- one statement of `normalizeServerSettings`:
-    `if settings.F <cond> { settings.F = defaults.F }` -/
-def resetIf (s : Settings) (r : Leaf × NormCond) : Settings :=
-  if r.2.holds (get s r.1) then set s r.1 (get defaults r.1) else s
+    `if settings.F <cond> { settings.F = <to> }` -/
+def resetIf (s : Settings) (r : NormRule) : Settings :=
+  if r.cond.holds (get s r.leaf) then set s r.leaf r.value else s
 
-/-- `normalizeServerSettings`: its six statements, in order (`normRules` is compared with the
+/-- `normalizeServerSettings`: its statements, in order (`normRules` is compared with the
     source by the op `c19.keys`). -/
 def normalize (s : Settings) : Settings := normRules.foldl resetIf s
+
+/-- `normalizeServerSettings` of the pinned tree -/
+def normalizePinned (s : Settings) : Settings := normRulesPinned.foldl resetIf s
 
 /-- One `if value, ok := toX(m["key"]); ok { settings.F = … }` statement of `applySettingsMap`.
     `group = some g`: the statement sits inside `if gRaw, ok := raw[g].(map[string]interface{}); ok`
@@ -402,18 +456,75 @@ def applySettingsMap (s : Settings) (raw : List (String × Json)) : Settings :=
 
 mutual
 /-- `parseSettingsFromRaw(base, raw)`; structural recursion on the JSON value (the Go function
-    recurses on `rawMap["hledger"]`, a strict sub-value). -/
+    recurses on `rawMap["hledger"]`, a strict sub-value).  The members of the object are applied
+    first, the `hledger` section — if it is an object — on top of them; one normalisation at
+    the end of the chain. -/
 def parseSettingsFromRaw (base : Settings) : Json → Settings
   | .obj kvs =>
-    match parseNested base kvs with
+    let s := applySettingsMap base kvs
+    match parseNested s kvs with
     | some r => r
-    | none => normalize (applySettingsMap base kvs)
+    | none => normalize s
   | _ => normalize base
-/-- `if nested, ok := rawMap["hledger"]; ok { return parseSettingsFromRaw(settings, nested) }` -/
+/-- `if nested, ok := rawMap["hledger"].(map[string]interface{}); ok { return parseSettingsFromRaw(settings, nested) }`
+    (`rawMap[...]` finds the one member with that key; a member that is not an object fails the
+    type assertion) -/
 def parseNested (base : Settings) : List (String × Json) → Option Settings
   | [] => none
-  | (k, v) :: r => if k = "hledger" then some (parseSettingsFromRaw base v) else parseNested base r
+  | (k, v) :: r =>
+    if k = "hledger" then
+      match v with
+      | .obj _ => some (parseSettingsFromRaw base v)
+      | _ => none
+    else parseNested base r
 end
+
+mutual
+/-- `parseSettingsFromRaw` of the PINNED tree: returns as soon as the object has a member
+    `hledger`, of whatever type, and never reads the other members (finding
+    `wrapper-shadows-siblings`, repaired); normalisation without upper bounds. -/
+def parseSettingsFromRawPinned (base : Settings) : Json → Settings
+  | .obj kvs =>
+    match parseNestedPinned base kvs with
+    | some r => r
+    | none => normalizePinned (applySettingsMap base kvs)
+  | _ => normalizePinned base
+def parseNestedPinned (base : Settings) : List (String × Json) → Option Settings
+  | [] => none
+  | (k, v) :: r => if k = "hledger" then some (parseSettingsFromRawPinned base v) else parseNestedPinned base r
+end
+
+/-! ## The include cache, as far as the limits are concerned
+
+  The loader checks an included file against `limits.maxFileSizeBytes` when it reads it; a
+  cached file is not read again (only the depth limit is checked on every load, and the cached
+  file's own includes are followed).  `Loader.SetLimits` empties the cache when the limits
+  change.  The behaviour probe of the harness is the chain `main` (25 bytes) → `a` (72) → `b`
+  (22) → `c` (4); files are numbered a = 1, b = 2, c = 3 and `cache` lists the cached ones. -/
+
+def includeMainBytes : Int := 25
+
+def includeSize : Nat → Int
+  | 1 => 72 | 2 => 22 | _ => 4
+
+/-- `loadSingleInclude` along the chain, from file `k` on: depth-limit diagnostic, too-large
+    diagnostic, cache afterwards.  A file is cached as soon as it has been parsed, before the
+    depth test. -/
+def includeFrom (L D : Int) : Nat → Nat → List Nat → Bool × Bool × List Nat
+  | 0, _, cache => (false, false, cache)
+  | fuel + 1, k, cache =>
+    if k > 3 then (false, false, cache)
+    else
+      let cached := cache.contains k
+      if !cached && includeSize k > L then (false, true, cache)
+      else
+        let cache1 := if cached then cache else k :: cache
+        if D ≤ (k : Int) then (true, false, cache1)
+        else includeFrom L D fuel (k + 1) cache1
+
+/-- `Loader.LoadFromContent` of `main` with limits (L, D) and the given cache -/
+def includeProbe (cache : List Nat) (L D : Int) : Bool × Bool × List Nat :=
+  if L < includeMainBytes then (false, true, cache) else includeFrom L D 4 1 cache
 
 /-! ## The server: Initialize, refresh tasks -/
 
@@ -467,23 +578,39 @@ inductive Pc where
   | start                       -- spawned, nothing done
   | asked                       -- request sent, waiting for the client
   | answered (r : Pull)         -- reply received
-  | parsed (s : Settings)       -- `parseSettingsFromRaw(s.getSettings(), result[0])` evaluated
   | done
   deriving Repr
 
+/-- One `refreshConfiguration` goroutine: the number it took from `nextRefresh` on the handler
+    thread, and where it stands. -/
+structure Task where
+  seq : Nat
+  pc : Pc
+  deriving Repr
+
+/-- The server as far as configuration goes.  `refreshSeq` is `Server.refreshSeq`; `cache`
+    lists the probe's include files held by the loader (see above). -/
 structure Srv where
   settings : Settings
   supportsCfg : Bool
   hasClient : Bool
-  tasks : List Pc
+  tasks : List Task
+  refreshSeq : Nat
+  cache : List Nat
   deriving Repr
 
-/-- `NewServer()` (+ `SetClient`): `setSettings(defaults)` stores the normalised defaults. -/
-def newServer (hasClient : Bool) : Srv := ⟨normalize defaults, false, hasClient, []⟩
+/-- `NewServer()` (+ `SetClient`): `setSettings(defaults)` stores the normalised defaults; the
+    loader starts with the default limits and an empty cache. -/
+def newServer (hasClient : Bool) : Srv := ⟨normalize defaults, false, hasClient, [], 0, []⟩
 
-/-- `setSettings` (the settings part; the loader receives `settings.Limits`, the CLI client is
-    rebuilt when path or timeout changed) -/
-def setSettings (σ : Srv) (s : Settings) : Srv := { σ with settings := normalize s }
+/-- `setSettings`: the settings are normalised and stored; the loader receives
+    `settings.Limits` and `Loader.SetLimits` empties its cache when they differ from the ones
+    it has (which are the stored ones: every store goes through here, and `normalizeLimits`
+    changes nothing on normalised settings); the CLI client is rebuilt when path or timeout
+    changed (not modelled). -/
+def setSettings (σ : Srv) (s : Settings) : Srv :=
+  let n := normalize s
+  { σ with settings := n, cache := if n.limits = σ.settings.limits then σ.cache else [] }
 
 /-- `Initialize`.  `none` is the Go call with `params == nil`, which dereferences nil at
     `params.WorkspaceFolders` (the JSON-RPC dispatcher always passes a non-nil pointer). -/
@@ -496,11 +623,25 @@ def initializeSrv (σ : Srv) : Option InitParams → Except Panic (Srv × Caps)
     let σ := setSettings σ (parseSettingsFromRaw σ.settings p.options)
     .ok (σ, capsOf σ.settings)
 
-/-- `go s.refreshConfiguration(…)` — from `DidChangeConfiguration` (whose own parameter is
-    not looked at) and from `Initialized`. -/
-def spawnRefresh (σ : Srv) : Srv := { σ with tasks := σ.tasks ++ [.start] }
+/-- `nextRefresh()` on the handler thread -/
+def nextRefresh (σ : Srv) : Srv := { σ with refreshSeq := σ.refreshSeq + 1 }
 
-def setTask (σ : Srv) (i : Nat) (pc : Pc) : Srv := { σ with tasks := σ.tasks.set i pc }
+/-- `go s.refreshConfiguration(ctx, s.nextRefresh())` -/
+def spawnRefresh (σ : Srv) : Srv :=
+  let σ := nextRefresh σ
+  { σ with tasks := σ.tasks ++ [⟨σ.refreshSeq, .start⟩] }
+
+/-- `applyConfiguration(seq, raw)`: under `refreshMu`, if `seq` is still the newest refresh
+    requested, the settings in `raw` are parsed on top of the current settings and stored.
+    One atomic step: `refreshMu` excludes every other `applyConfiguration`; the only actor it
+    does not exclude is the handler thread taking the next number, and an increment of
+    `refreshSeq` between the check and the store leads to the same state as the same increment
+    right after the store. -/
+def applyConfiguration (σ : Srv) (seq : Nat) (raw : Json) : Srv :=
+  if seq = σ.refreshSeq then setSettings σ (parseSettingsFromRaw σ.settings raw) else σ
+
+def setPc (σ : Srv) (i : Nat) (pc : Pc) : Srv :=
+  { σ with tasks := σ.tasks.modify i fun t => { t with pc := pc } }
 
 /-- checked `result[0]` -/
 def index0 : List Json → Except Panic Json
@@ -511,25 +652,42 @@ def index0 : List Json → Except Panic Json
 def stepTask (σ : Srv) (i : Nat) (reply : Pull) : Except Panic Srv :=
   match σ.tasks[i]? with
   | none => .ok σ
-  | some .start =>
-    if !σ.hasClient || !σ.supportsCfg then .ok (setTask σ i .done) else .ok (setTask σ i .asked)
-  | some .asked => .ok (setTask σ i (.answered reply))
-  | some (.answered .err) => .ok (setTask σ i .done)
-  | some (.answered (.items l)) =>
-    if l.length = 0 then .ok (setTask σ i .done)
+  | some ⟨_, .start⟩ =>
+    if !σ.hasClient || !σ.supportsCfg then .ok (setPc σ i .done) else .ok (setPc σ i .asked)
+  | some ⟨_, .asked⟩ => .ok (setPc σ i (.answered reply))
+  | some ⟨_, .answered .err⟩ => .ok (setPc σ i .done)
+  | some ⟨seq, .answered (.items l)⟩ =>
+    if l.length = 0 then .ok (setPc σ i .done)
     else do
       let r ← index0 l
-      .ok (setTask σ i (.parsed (parseSettingsFromRaw σ.settings r)))
-  | some (.parsed s) => .ok (setTask (setSettings σ s) i .done)
-  | some .done => .ok σ
+      .ok (setPc (applyConfiguration σ seq r) i .done)
+  | some ⟨_, .done⟩ => .ok σ
 
-/-- a task run without interleaving: start, ask, answer, parse, set -/
+/-- a task run without interleaving: start, ask, answer, apply -/
 def runTask (σ : Srv) (i : Nat) (reply : Pull) : Except Panic Srv := do
   let σ ← stepTask σ i reply
   let σ ← stepTask σ i reply
   let σ ← stepTask σ i reply
-  let σ ← stepTask σ i reply
   stepTask σ i reply
+
+/-- `DidChangeConfiguration(params)`: a client that can be asked is asked (the notification's
+    own payload is then not looked at); otherwise the pushed settings, if any (`null` is Go's
+    nil), are applied on the handler thread. -/
+def didChangeConfiguration (σ : Srv) (pushed : Json) : Srv :=
+  if σ.hasClient && σ.supportsCfg then spawnRefresh σ
+  else
+    let σ := nextRefresh σ
+    match pushed with
+    | .null => σ
+    | p => applyConfiguration σ σ.refreshSeq p
+
+/-- The diagnostics load of the behaviour probe's `main` file (a fresh directory has nothing
+    in the cache): happens when there is a client to publish to and diagnostics are on. -/
+def probeLoad (σ : Srv) (fresh : Bool) : Srv :=
+  let cache := if fresh then [] else σ.cache
+  if σ.hasClient && σ.settings.features.diagnostics then
+    { σ with cache := (includeProbe cache σ.settings.limits.maxFileSizeBytes σ.settings.limits.maxIncludeDepth).2.2 }
+  else { σ with cache := cache }
 
 /-- What can happen to the server, as far as configuration goes.  Client messages are handled
     one at a time by the read loop; every `task` event is one atomic step of one background
@@ -539,13 +697,15 @@ inductive Event where
   | initialized
   | didChangeConfiguration (settings : Json)     -- the notification's own payload
   | task (i : Nat) (reply : Pull)
+  | probe (fresh : Bool)                         -- a document with includes is opened
   deriving Repr
 
 def step (σ : Srv) : Event → Except Panic Srv
   | .init p => (initializeSrv σ p).map (·.1)
   | .initialized => .ok (spawnRefresh σ)
-  | .didChangeConfiguration _ => .ok (spawnRefresh σ)
+  | .didChangeConfiguration p => .ok (didChangeConfiguration σ p)
   | .task i r => stepTask σ i r
+  | .probe fresh => .ok (probeLoad σ fresh)
 
 def run (σ : Srv) : List Event → Except Panic Srv
   | [] => .ok σ
@@ -555,11 +715,49 @@ def run (σ : Srv) : List Event → Except Panic Srv
     | .error p => .error p
 
 /-- the events of one configuration change handled without interleaving: the notification,
-    then the five steps of the task it spawned (which has index `n`), the client answering
+    then the four steps of the task it spawned (which has index `n`), the client answering
     with `reply` -/
 def changeEvents (n : Nat) (pushed : Json) (reply : Pull) : List Event :=
-  [.didChangeConfiguration pushed, .task n reply, .task n reply, .task n reply, .task n reply,
-   .task n reply]
+  [.didChangeConfiguration pushed, .task n reply, .task n reply, .task n reply, .task n reply]
+
+/-! ### The refresh tasks of the PINNED tree
+
+  No numbering: every task parses its answer on top of the settings it reads and stores the
+  result, in two separate steps (findings `refresh-out-of-order`, lost update); the
+  notification's own payload is never looked at (finding `push-ignored`); `SetLimits` keeps
+  the cache (finding `limits-skip-cached-includes`). -/
+
+inductive PcP where
+  | start | asked | answered (r : Pull) | parsed (s : Settings) | done
+  deriving Repr
+
+structure SrvP where
+  settings : Settings
+  supportsCfg : Bool
+  hasClient : Bool
+  tasks : List PcP
+  deriving Repr
+
+inductive EventP where
+  | didChangeConfiguration (settings : Json)
+  | task (i : Nat) (reply : Pull)
+  deriving Repr
+
+def stepP (σ : SrvP) : EventP → SrvP
+  | .didChangeConfiguration _ => { σ with tasks := σ.tasks ++ [.start] }
+  | .task i reply =>
+    let setT (pc : PcP) : SrvP := { σ with tasks := σ.tasks.set i pc }
+    match σ.tasks[i]? with
+    | none => σ
+    | some .start => if !σ.hasClient || !σ.supportsCfg then setT .done else setT .asked
+    | some .asked => setT (.answered reply)
+    | some (.answered .err) => setT .done
+    | some (.answered (.items [])) => setT .done
+    | some (.answered (.items (r :: _))) => setT (.parsed (parseSettingsFromRawPinned σ.settings r))
+    | some (.parsed s) => { σ with settings := normalizePinned s, tasks := σ.tasks.set i .done }
+    | some .done => σ
+
+def runP (σ : SrvP) (es : List EventP) : SrvP := es.foldl stepP σ
 
 /-- `shouldIncludeDiagnostic` -/
 def shouldIncludeDiagnostic (code : String) (d : Diagnostics) : Bool :=
